@@ -118,5 +118,5 @@ SUBCHECKS = {"round_robin": check_pure, "rl": check_pure}
 
 
 def run(ctx: Ctx):
-    drive(ctx, "round_robin", cases(False), check_pure, ctx.n(320, 4800), shrink=not ctx.quick)
-    drive(ctx, "rl", cases(True), check_pure, ctx.n(240, 2400), shrink=not ctx.quick)
+    drive(ctx, "round_robin", cases(False), check_pure, ctx.n(320, 4800), shrink=not ctx.quick, flaky_is_violation=True)
+    drive(ctx, "rl", cases(True), check_pure, ctx.n(240, 2400), shrink=not ctx.quick, flaky_is_violation=True)
